@@ -184,7 +184,7 @@ theorem of_ite_none {α : Type} {c : Prop} [Decidable c] {x : Option α} {y : α
   · exact h
 
 theorem newDetectionState_ok (h0 : Q "") (A : Atoms) {nums : List PInfo} (desc : Bool) (acc : String)
-    (hd : Q A.docURL) (ht : Q (trimSlash A.docURL)) (hl : AllQ Q nums) {st : DState}
+    (hd : Q A.docURL) (ht : Q (trimPathSlash A.docURL)) (hl : AllQ Q nums) {st : DState}
     (h : newDetectionState A nums desc acc = some st) : OkOpt Q st.best := by
   unfold newDetectionState at h
   dsimp only at h
@@ -263,7 +263,7 @@ theorem Ok_default (h0 : Q "") : Ok Q ({} : ParamInfo) :=
   ⟨fun _ h => (by cases h), h0⟩
 
 theorem detectParamInfo_ok (h0 : Q "") (A : Atoms) (gs : List PGroup) (arg : String)
-    (hd : Q A.docURL) (ht : Q (trimSlash A.docURL)) (hg : ∀ g ∈ gs, AllQ Q g.list) :
+    (hd : Q A.docURL) (ht : Q (trimPathSlash A.docURL)) (hg : ∀ g ∈ gs, AllQ Q g.list) :
     Ok Q (detectParamInfo A gs arg) := by
   unfold detectParamInfo
   split
@@ -427,7 +427,7 @@ theorem pickFold_max (banned : List String) (cs : List Cand) :
 
 /-- where a URL of the detection result can come from -/
 def SrcQ (A : Atoms) (gs : List PGroup) (u : String) : Prop :=
-  u = "" ∨ (u ∈ groupURLs' gs ∨ u = A.docURL ∨ u = trimSlash A.docURL)
+  u = "" ∨ (u ∈ groupURLs' gs ∨ u = A.docURL ∨ u = trimPathSlash A.docURL)
 
 theorem detect_ok (A : Atoms) (gs : List PGroup) (arg : String) :
     Ok (SrcQ A gs) (detectParamInfo A gs arg) := by
@@ -442,19 +442,19 @@ theorem detect_ok (A : Atoms) (gs : List PGroup) (arg : String) :
 
 theorem detect_pages_src (A : Atoms) (gs : List PGroup) (arg : String) :
     ∀ p ∈ (detectParamInfo A gs arg).pages,
-      p.url = "" ∨ (p.url ∈ groupURLs' gs ∨ p.url = A.docURL ∨ p.url = trimSlash A.docURL) :=
+      p.url = "" ∨ (p.url ∈ groupURLs' gs ∨ p.url = A.docURL ∨ p.url = trimPathSlash A.docURL) :=
   (detect_ok A gs arg).1
 
 theorem detect_next_src (A : Atoms) (gs : List PGroup) (arg : String) :
     (detectParamInfo A gs arg).next = "" ∨
       ((detectParamInfo A gs arg).next ∈ groupURLs' gs ∨ (detectParamInfo A gs arg).next = A.docURL ∨
-       (detectParamInfo A gs arg).next = trimSlash A.docURL) :=
+       (detectParamInfo A gs arg).next = trimPathSlash A.docURL) :=
   (detect_ok A gs arg).2
 
 theorem number_links (A : Atoms) (gs : List PGroup) (arg s1 s2 : String) :
     let r := numberPrevNext (detectParamInfo A gs arg) s1 s2
-    (r.1 = "" ∨ (isJs r.1 = false ∧ (r.1 ∈ groupURLs' gs ∨ r.1 = A.docURL ∨ r.1 = trimSlash A.docURL))) ∧
-    (r.2 = "" ∨ (isJs r.2 = false ∧ (r.2 ∈ groupURLs' gs ∨ r.2 = A.docURL ∨ r.2 = trimSlash A.docURL) ∧ r.2 ≠ s1 ∧ r.2 ≠ s2)) := by
+    (r.1 = "" ∨ (isJs r.1 = false ∧ (r.1 ∈ groupURLs' gs ∨ r.1 = A.docURL ∨ r.1 = trimPathSlash A.docURL))) ∧
+    (r.2 = "" ∨ (isJs r.2 = false ∧ (r.2 ∈ groupURLs' gs ∨ r.2 = A.docURL ∨ r.2 = trimPathSlash A.docURL) ∧ r.2 ≠ s1 ∧ r.2 ≠ s2)) := by
   intro r
   obtain ⟨h1, h2⟩ := numberPrevNext_ok (Q := SrcQ A gs) (Or.inl rfl) (detect_ok A gs arg) s1 s2
   constructor
